@@ -120,7 +120,7 @@ Upd(gg, k) ==
         ELSE
         LET gA == IF IsOpenSnap(t)
                   THEN [g3 EXCEPT !.lastGc = st.gc, !.handLive = TRUE, !.handIds = GpiIds(st), !.openBank = Banks(st),
-                                  !.openBlind = st.blind, !.lastParts = PartIds(st), !.openSt = <<st>>, !.cnt = <<>>, !.cntIds = {}, !.leftSince = {},
+                                  !.openBlind = st.blind, !.lastParts = PartIds(st), !.openSt = <<st>>, !.cnt = <<>>, !.cntIds = {}, !.leftSince = {}, !.settledSt = <<>>,
                                   !.openLabels = [id \in Ids(st) |-> P(st, id).pos], 
                                   !.missed = [id \in Ids(st) |->
                                       IF P(st, id).part \/ ~(P(st, id).in /\ P(st, id).bank > 0) THEN 0
@@ -349,7 +349,7 @@ C07_noOpenOnBreak(t) == IsOpenSnap(t) => BlindIsSet(t.st.blind) /\ ~BlindIsBreak
 ShouldPause(f) == BlindIsBreak(f.blind) \/ Cardinality(AliveIds(f)) < f.minp
 C08_pauseIff(t, gg) ==
   \* the first engine-side line after the continue handler started shows its decision
-  (gg.afterFire /\ ~IsRet(t) /\ ~gg.ext /\ Len(gg.fireSt) = 1) =>
+  (gg.afterFire /\ ~IsRet(t) /\ ~gg.ext /\ Len(gg.fireSt) = 1 /\ gg.fireSt[1].status = "table_game_standby") =>
     IF ShouldPause(gg.fireSt[1])
     THEN t.ev = "cb:updated" /\ t.st.status = "table_pausing"
     ELSE t.ev = "hook" /\ t.a.kind = "continue.setup"
@@ -455,7 +455,8 @@ C12_gameBlind(t, gg) ==
 C12_updateSticks(t, gg) == (Trusty(t) /\ Len(gg.blindSet) = 5) => t.st.blind = gg.blindSet
 \* when the level is a break as the continue handler runs, the table pauses (the break case of C08_pauseIff)
 C12_breakPauses(t, gg) ==
-  (gg.afterFire /\ ~IsRet(t) /\ ~gg.ext /\ Len(gg.fireSt) = 1 /\ BlindIsBreak(gg.fireSt[1].blind)) =>
+  (gg.afterFire /\ ~IsRet(t) /\ ~gg.ext /\ Len(gg.fireSt) = 1 /\ gg.fireSt[1].status = "table_game_standby"
+   /\ BlindIsBreak(gg.fireSt[1].blind)) =>
     (t.ev = "cb:updated" /\ t.st.status = "table_pausing")
 C12_createdOnBreak(t) == (t.ev = "ret:CreateTable" /\ t.res = "ok" /\ t.a.blind[1] = -1) => t.st.status = "table_pausing"
 
@@ -464,8 +465,8 @@ FlagPairs == {<<"vpip", "vpipC">>, <<"pfr", "pfrC">>, <<"ats", "atsC">>, <<"3b",
               <<"cr", "crC">>, <<"cb", "cbC">>, <<"ftcb", "ftcbC">>, <<"sd", "sdC">>}
 \* judged at the first quiescent line after the settled snapshot (the return of the call that closed the hand may be
 \* recorded after the snapshot it caused)
-C14_counters(t, gg) ==
-  (t.ev \in {"q", "end"} /\ Len(gg.settledSt) = 1) =>
+C14_counters(t, gg) ==    \* (... or the snapshot that opens the next hand, when that comes first)
+  ((t.ev \in {"q", "end"} \/ (Trusty(t) /\ IsOpenSnap(t))) /\ Len(gg.settledSt) = 1) =>
     \A id \in Range(gg.handIds) : id \in Ids(gg.settledSt[1]) =>
       LET s == P(gg.settledSt[1], id).stats  c == Fn(gg.cnt, gg.cntIds, id, ZeroCnt) IN
       /\ s.at = c.at /\ s.ct = c.ct /\ s.kt = c.kt /\ s.rt <= s.at
